@@ -109,6 +109,20 @@ CLAIMS["C18"] = (
     "bounded exhaustive enumeration of the finite colour domain; deductive kernel for the lookup tables",
 )
 
+CLAIMS["C12"] = (
+    "proof",
+    "With screens, event loops, widgets and user callbacks opaque (any user callback may raise anything): MainLoop._run ends, on every exit -- normal, ExitMainLoop, any other exception out of "
+    "event_loop.run() or the built-in screen loop -- with screen.stop() after the last screen.start(), and the exception leaving is the one raised; run() swallows ExitMainLoop only; "
+    "process_input routes each event in list order: topmost widget first (keypress at the screen size iff selectable / mouse_event with its coordinates), unhandled_input exactly when the widget "
+    "returned the key / False, redraw-command keys clear the screen instead; _update calls the input filter once per batch first and hands its result on; entering_idle redraws from the current "
+    "widget state iff the screen is started; BaseScreen.start/stop pair _start/_stop exactly and stop is idempotent; POSIX Screen._stop after _start (options unchanged) returns the ghost mode set "
+    "(alternate buffer, bracketed paste, focus reporting, mouse tracking, cbreak, signal handlers, cursor) to the initial one.",
+    "Assumes: the effect table mapping escape constants / tty calls to modes (what a real terminal does is NOT decided here), opaque protocols for Screen/EventLoop/Widget, signal wiring (C14). "
+    "The exception plumbing inside third-party event loops and real pty behaviour: bounded stand-in only.",
+    "§6 C12",
+    TECH + " with exceptions as first-class outcomes and a ghost call trace; bounded fault-injection stand-in",
+)
+
 PENDING = "contracts for this property are not built yet in this commit (see DESIGN.md §6 for the plan); no check is claimed"
 
 
